@@ -61,6 +61,9 @@ func loadKnown() *KnownFile {
 
 var verifDir = "/verif"
 
+// outDir: where evidence and replay files are written (default: verifDir)
+var outDir = ""
+
 type violation struct {
 	Job       *Job
 	Ob        Obligation
@@ -306,6 +309,9 @@ func runCheck(prop, tier string) int {
 
 	// ---- verdict ----
 	known := loadKnown()
+	if outDir != "" {
+		verifDir = outDir
+	}
 	os.RemoveAll(verifDir + "/replays/" + prop)
 	os.MkdirAll(verifDir+"/replays/"+prop, 0755)
 	newViol := 0
